@@ -311,6 +311,10 @@ def run(ctx: Ctx) -> None:
         fams.append(('bigger', fam_bigger(), 60))
     items: list = []
     planned: dict[str, int] = {}
+    only = os.environ.get('VERIF_FAMILIES')          # development aid
+    if only:
+        fams = [f for f in fams if f[0] in only.split(',')]
+        ctx.cap('VERIF_FAMILIES=' + only + ': families restricted by hand')
     for name, cases, per in fams:
         planned[name] = len(cases)
         its = _items(name, cases, ctx.seed, per)
